@@ -79,6 +79,10 @@ pub struct HistCfg {
     /// operations later: recovery of a database whose first WAL was never recorded
     #[serde(default)]
     pub early_reopen: bool,
+    /// per-mille probability that a thread of raindb sleeps for a random 0..600 microseconds at
+    /// a point where it does not hold the database mutex (widens race windows; a legal schedule)
+    #[serde(default)]
+    pub jitter: u64,
 }
 
 #[derive(Clone, Debug, Serialize, Deserialize)]
@@ -763,6 +767,7 @@ pub fn run_hist(
     let mut rng = StdRng::seed_from_u64(cfg.seed ^ 0x9e3779b97f4a7c15);
     let fs = SimFs::new(ROOT);
     fs.attach(Some(Arc::clone(sink)));
+    crate::common::JITTER_PERMILLE.store(cfg.jitter, std::sync::atomic::Ordering::SeqCst);
     install_observer(ROOT, sink, true);
     take_panics();
     let first_event = sink.len();
